@@ -249,8 +249,9 @@ func extractC11(c *Ctx) {
 					if f == "delete" && len(x.Args) > 0 {
 						out = append(out, "delete:"+callSrc(c, x.Args[0]))
 					}
-					if f == "verifhook.Point" {
-						out = append(out, "hook")
+					if f == "verifhook.Point" && len(x.Args) > 0 {
+						// named, so that the position of every yield point inside the loops is tied too
+						out = append(out, "hook:"+strings.Trim(callSrc(c, x.Args[0]), `"`))
 					}
 				case *ast.AssignStmt:
 					if len(x.Lhs) == 1 {
